@@ -1,8 +1,11 @@
 #!/bin/bash
 # usage: tools/seedcheck.sh <patch.diff> <prop> [<prop> ...]   -- apply a seeded change to /repo, run the quick checks, undo it
+# (evidence and replay files of these runs go to a scratch directory, not to /verif/evidence)
 patch=$1; shift
+scratch=$(mktemp -d /tmp/seedcheck.XXXXXX)
 git -C /repo apply "$patch" || exit 3
-trap 'git -C /repo checkout -- .' EXIT
+trap 'git -C /repo checkout -- .; rm -rf "$scratch"' EXIT
+export PFST_VERIF_EVIDENCE=$scratch/evidence PFST_VERIF_REPLAYS=$scratch/replays
 for p in "$@"; do
   s=$(date +%s)
   out=$(/verif/check.py $p --tier quick 2>&1); rc=$?
